@@ -236,3 +236,5 @@ def run(eng, rep):
     rule_at_least_one_sweep(eng, rep)
     from .c15 import rule_limits_are_the_callers
     rule_limits_are_the_callers(eng, rep, rule="C09-3b.dykstra-tests-the-callers-tolerance")
+    from .c15 import rule_projector_argument_is_not_reused
+    rule_projector_argument_is_not_reused(eng, rep, rule="C09-3c.the-point-handed-to-a-projector-is-not-read-again")
